@@ -35,10 +35,17 @@ Proof.
     destruct (set_record (del_record s r) r') as [s2|] eqn:E2; [|assumption].
     pose proof (set_record_net a _ _ _ (del_record_nn s r N) E2) as L2. unfold del_record in L2. simpl in L2. lia.
   - destruct (upd_dg s _ 0 (- ur_amt r)) as [[s1 z]|] eqn:E1; [|assumption].
-    destruct (upd_sa s1 _ 0 (ur_act r) (- ur_amt r)) as [s2|] eqn:E2; [|assumption].
+    destruct (pay_staker s1 r) as [s2|] eqn:E2; [|assumption].
     destruct (upd_oa s2 _ 0 (- ur_amt r) 0 0) as [s3|] eqn:E3; [|assumption].
-    apply upd_dg_log in E1. apply upd_sa_log in E2. apply upd_oa_log in E3.
-    unfold del_record. simpl. rewrite E3, E2, E1. assumption.
+    apply upd_dg_log in E1. apply upd_oa_log in E3.
+    assert (net a (glog s2) <= net a (glog s1)) as L2.
+    { apply pay_spec in E2. destruct E2 as [(Nat & s0 & B & ->)|(_ & U)].
+      - apply bank_send_same in B. destruct B as (_ & _ & L0). unfold log_ev. simpl. rewrite L0.
+        destruct N as (_ & _ & _ & _ & Nu & _). pose proof (allv_sget _ _ _ _ Nu G) as Nr.
+        unfold ur_nn in Nr. rewrite andb_true_iff, !Z.leb_le in Nr.
+        unfold net. simpl. unfold if_eq. destruct (String.eqb (ur_asset r) a); lia.
+      - apply upd_sa_log in U. rewrite U. lia. }
+    unfold del_record. simpl. rewrite E3. rewrite E1 in L2. lia.
 Qed.
 
 Lemma slash_records_net a op eh prop u u' ev : 0 <= prop -> allv ur_nn u = true ->
@@ -76,60 +83,68 @@ Proof.
 Qed.
 
 Lemma step_net a s o : idx_inv s -> nn s -> wf_op o = true ->
-  net a (glog (fst (step s o))) <= net a (glog s) \/ is_deposit_of a o = true.
+  net a (glog (fst (step s o))) <= net a (glog s) \/ is_inflow_of a o = true.
 Proof.
   intros I N Wf. destruct o; simpl.
-  - (* Deposit *) destruct (String.eqb a asset) eqn:Ea; [right; reflexivity|left].
+  - (* Deposit *) destruct (String.eqb a asset) eqn:Ea; [right; unfold is_inflow_of; simpl; rewrite Ea; reflexivity|left].
     destruct (deposit s staker asset x) as [s'|] eqn:E; simpl; [|lia].
-    unfold deposit in E. dmatch E. inversion E; subst; clear E. simpl.
+    apply deposit_shape in E. destruct E as [(_ & ->)|(_ & E)]; [lia|].
+    unfold deposit_lst in E. dmatch E. inversion E; subst; clear E. simpl.
     apply upd_sa_log in Heqo0. apply upd_tot_log in Heqo1. rewrite Heqo1, Heqo0.
     unfold net. simpl. unfold if_eq. rewrite String.eqb_sym, Ea. lia.
   - left. destruct (withdraw s staker asset x) as [s'|] eqn:E; simpl; [|lia].
-    unfold withdraw in E. destruct (x <? 0) eqn:Ex; [discriminate|]. apply Z.ltb_ge in Ex.
+    apply withdraw_shape in E. destruct E as [(_ & ->)|(_ & E)]; [lia|].
+    unfold withdraw_lst in E. destruct (x <? 0) eqn:Ex; [discriminate|]. apply Z.ltb_ge in Ex.
     dmatch E. inversion E; subst; clear E. simpl.
     apply upd_sa_log in Heqo0. apply upd_tot_log in Heqo1. rewrite Heqo1, Heqo0.
     unfold net. simpl. unfold if_eq. destruct (String.eqb asset a); lia.
-  - left. destruct (delegate s staker asset operator x) as [s'|] eqn:E; simpl; [|lia].
+  - destruct (String.eqb a asset && is_native asset) eqn:Ein;
+      [right; unfold is_inflow_of; simpl; rewrite Ein; reflexivity|left].
+    destruct (delegate s staker asset operator x) as [s'|] eqn:E; simpl; [|lia].
     unfold delegate in E.
     destruct (x <=? 0); [discriminate|]. destruct (negb (mem operator (operators s))); [discriminate|].
-    destruct (sget (sa s) (sa_key staker asset)) as [info|]; [|discriminate].
-    destruct (sa_wd info <? x); [discriminate|].
-    destruct (upd_sa s (sa_key staker asset) 0 (- x) 0) as [s1|] eqn:E1; [|discriminate].
+    destruct (take_from_staker s staker asset x) as [s1|] eqn:E1; [|discriminate].
     match type of E with match ?e with _ => _ end = _ => destruct e as [sh|]; [|discriminate] end.
     destruct (upd_oa s1 (oa_key operator asset) x 0 sh 0) as [s2|] eqn:E2; [|discriminate].
     destruct (upd_dg s2 (dg_key staker asset operator) sh 0) as [[s3 z]|] eqn:E3; [|discriminate].
     inversion E; subst; clear E.
-    apply upd_sa_log in E1. apply upd_oa_log in E2. apply upd_dg_log in E3.
-    unfold append_staker. destruct (mem staker _); simpl; rewrite E3, E2, E1; lia.
+    assert (net a (glog s1) <= net a (glog s)) as L1.
+    { apply take_spec in E1. destruct E1 as [(Nat & s0 & B & ->)|(_ & U)].
+      - apply bank_send_same in B. destruct B as (_ & _ & L0). unfold log_ev. simpl. rewrite L0.
+        rewrite Nat, andb_true_r in Ein. unfold net. simpl. unfold if_eq. rewrite String.eqb_sym, Ein. lia.
+      - apply upd_sa_log in U. rewrite U. lia. }
+    apply upd_oa_log in E2. apply upd_dg_log in E3.
+    unfold append_staker. destruct (mem staker _); simpl; rewrite E3, E2; lia.
   - left. destruct (undelegate s staker asset operator x nonce tx) as [[s' r]|] eqn:E; simpl; [|lia].
     unfold undelegate in E.
     destruct (x <=? 0); [discriminate|]. destruct (negb (mem operator (operators s))); [discriminate|].
     destruct (sget (dg s) (dg_key staker asset operator)) as [d|] eqn:Ed; [|discriminate].
     destruct (sget (oa s) (oa_key operator asset)) as [o|] eqn:Eo; [|discriminate].
     destruct (shares_from_tokens (oa_tsh o) x (oa_amt o)) as [sh0|]; [|discriminate].
-    destruct (sh0 >? dg_sh d); [discriminate|].
+    match type of E with (if ?c then _ else _) = _ => destruct c; [discriminate|] end.
     destruct (shares_from_tokens (oa_tsh o) 1 (oa_amt o)) as [tol|]; [|discriminate].
-    set (sh := if dg_sh d - sh0 <? tol then dg_sh d else sh0) in *.
+    set (sh := if sh0 >? dg_sh d then dg_sh d else if dg_sh d - sh0 <? tol then dg_sh d else sh0) in *.
     destruct (sh <=? 0) eqn:Esh; [discriminate|]. destruct (sh >? oa_tsh o); [discriminate|].
     match type of E with match ?e with _ => _ end = _ => destruct e as [tok|] eqn:Et; [|discriminate] end.
     destruct (upd_oa s (oa_key operator asset) (- tok) tok (- sh) 0) as [s1|] eqn:E1; [|discriminate].
-    destruct (upd_sa s1 (sa_key staker asset) 0 0 tok) as [s2|] eqn:E2; [|discriminate].
+    destruct (book_pending s1 staker asset tok) as [s2|] eqn:E2; [|discriminate].
     destruct (upd_dg s2 (dg_key staker asset operator) (- sh) tok) as [[s3 z]|] eqn:E3; [|discriminate].
     match type of E with match ?e with _ => _ end = _ => destruct e as [s4|] eqn:E4; [|discriminate] end.
     match type of E with match set_record s4 ?rr with _ => _ end = _ => set (r0 := rr) in *;
       destruct (set_record s4 r0) as [s5|] eqn:E5; [|discriminate] end.
     assert (nn s3) as N3.
-    { eapply upd_dg_nn; [|eassumption]. eapply upd_sa_nn; [|eassumption]. eapply upd_oa_nn; eassumption. }
+    { eapply upd_dg_nn; [|eassumption]. eapply book_nn; [|eassumption]. eapply upd_oa_nn; eassumption. }
     assert (nn s4 /\ glog s4 = glog s3) as [N4 L4].
     { destruct z; [|inversion E4; subst; auto]. split; [eapply delete_staker_nn; eauto|].
       unfold delete_staker in E4. destruct (sget (sl s3) _); [|discriminate]. inversion E4; subst. reflexivity. }
     pose proof (set_record_net a _ _ _ N4 E5) as L5.
-    apply upd_oa_log in E1. apply upd_sa_log in E2. apply upd_dg_log in E3.
-    assert (net a (glog s5) <= net a (glog s)) as L by (rewrite L4, E3, E2, E1 in L5; exact L5).
+    apply upd_oa_log in E1. apply upd_dg_log in E3.
+    assert (glog s2 = glog s1) as E2' by (apply book_spec in E2; destruct E2 as [(_ & ->)|(_ & U)]; [reflexivity|apply upd_sa_log in U; exact U]).
+    assert (net a (glog s5) <= net a (glog s)) as L by (rewrite L4, E3, E2', E1 in L5; exact L5).
     destruct (mem operator (validators s)).
     + unfold hold_inc in E. destruct (hold_count s5 (rkey r0) =? max_u64); [discriminate|]. inversion E; subst. simpl. exact L.
     + inversion E; subst. exact L.
-  - (* GenesisLoad *) destruct (String.eqb a (ur_asset r)) eqn:Ea; [right; reflexivity|left].
+  - (* GenesisLoad *) destruct (String.eqb a (ur_asset r)) eqn:Ea; [right; unfold is_inflow_of; simpl; rewrite Ea; reflexivity|left].
     unfold genesis_load.
     destruct ((ur_amt r <=? 0) || negb (ur_act r =? ur_amt r)); [simpl; lia|].
     destruct (deposit s (ur_staker r) (ur_asset r) (ur_amt r)) as [s1|] eqn:E0; [|simpl; lia].
@@ -143,7 +158,8 @@ Proof.
     pose proof (set_record_net a _ _ _ N4 E4) as L5.
     apply upd_sa_log in E1. apply upd_oa_log in E2. apply upd_dg_log in E3.
     rewrite E3, E2, E1 in L5.
-    unfold deposit in E0. dmatch E0. inversion E0; subst; clear E0. simpl in L5.
+    apply deposit_shape in E0. destruct E0 as [(_ & ->)|(_ & E0)]; [lia|].
+    unfold deposit_lst in E0. dmatch E0. inversion E0; subst; clear E0. simpl in L5.
     apply upd_sa_log in Heqo0. apply upd_tot_log in Heqo1. rewrite Heqo1, Heqo0 in L5.
     unfold net in *. simpl in L5. unfold if_eq in L5. rewrite String.eqb_sym, Ea in L5. lia.
   - left. destruct prop as [p|]; simpl; [|lia].
@@ -169,7 +185,7 @@ Qed.
 
 
 Lemma only_deposit_step : forall s o a, idx_inv s -> nn s -> wf_op o = true ->
-  value a (fst (step s o)) <= value a s \/ is_deposit_of a o = true.
+  value a (fst (step s o)) <= value a s \/ is_inflow_of a o = true.
 Proof.
   intros s o a I N Wf. destruct (step_cons a s o I Wf) as [C _]. unfold cons in C.
   destruct (step_net a s o I N Wf) as [L|D]; [left; lia | right; exact D].
